@@ -574,7 +574,18 @@ def classify(rc, err):
     return "ok", ""
 
 
-def part_tools(c, bindir_san, hx):
+NONDETERMINISTIC = {"warc_parallel"}     # several workers: record order depends on scheduling
+
+
+def _slurp(p):
+    try:
+        with open(p, "rb") as f:
+            return f.read()
+    except OSError:
+        return None
+
+
+def part_tools(c, bindir_san, hx, bindir_rel):
     jobs = stream_matrix(c)
 
     def work(j):
@@ -587,15 +598,34 @@ def part_tools(c, bindir_san, hx):
                     f.write(t.stdin)
                 with open(p, "rb") as f:
                     rc, out, err = tr.run(t.argv(bindir_san, w, hx), timeout=TOOL_TIMEOUT, env=env, cwd=w, stdin_file=f)
+                return j, rc, err, None
             else:
                 rc, out, err = tr.run(t.argv(bindir_san, w, hx), t.stdin, timeout=TOOL_TIMEOUT, env=env, cwd=w)
-            return j, rc, err
+                # differential run: the uninstrumented -O2 build must behave the same (a difference means the result
+                # depends on something the language leaves undefined: uninitialised data, evaluation of garbage ...)
+                if rc != "timeout" and len(t.stdin) <= 300000 and t.name not in NONDETERMINISTIC:
+                    outs_san = {o: _slurp(os.path.join(w, o)) for o in t.outputs}
+                    for o in t.outputs:
+                        try:
+                            os.unlink(os.path.join(w, o))
+                        except OSError:
+                            pass
+                    rc2, out2, err2 = tr.run(t.argv(bindir_rel, w, hx), t.stdin, timeout=TOOL_TIMEOUT, cwd=w)
+                    outs_rel = {o: _slurp(os.path.join(w, o)) for o in t.outputs}
+                    if classify(rc, err)[0] == "ok" and (out2 != out or outs_rel != outs_san or tr.status_class(rc2) != tr.status_class(rc)):
+                        return j, rc, err, (rc2, out[:200], out2[:200])
+            return j, rc, err, None
 
     with ThreadPoolExecutor(WORKERS) as ex:
         results = list(ex.map(work, jobs))
-    for (t, sname), rc, err in results:
+    for (t, sname), rc, err, diff in results:
         kind, detail = classify(rc, err)
         c.count((t.label, sname), bucket="tool-run/%s/%s" % ("options" if sname == "options" else "stream", kind))
+        if diff is not None:
+            c.violation("build-dependent-behaviour: %s %s on input '%s': sanitizer build (-O1) gives status %s / %r, release build (-O2) status %s / %r" % (
+                t.name, " ".join(t.args[:4]), sname, rc, diff[1][:60], diff[0], diff[2][:60]),
+                {"tool": t.label, "executable": t.name, "argv": t.argv("$BIN", "$W", "$HX"), "stream": sname, "stdin_hex": hexs(t.stdin) if len(t.stdin) <= 4096 else None,
+                 "files_hex": {k_: hexs(v) for k_, v in t.files.items()}, "status": rc, "report": "outputs differ between builds", "status_release": diff[0]})
         if kind == "ok":
             continue
         small = len(t.stdin) <= 4096
@@ -758,7 +788,7 @@ def main(argv):
         c.broken.append("extraction/driver build failed: " + dlog[-600:])
     kconst = {}
     part_formatters(c, drv, kconst)
-    part_tools(c, os.path.dirname(repo_bin("x", SAN)), os.path.dirname(hx_bin("x")))
+    part_tools(c, os.path.dirname(repo_bin("x", SAN)), os.path.dirname(hx_bin("x")), os.path.dirname(repo_bin("x")))
     part_faults_sanitized(c, os.path.dirname(repo_bin("x", SAN)), os.path.dirname(hx_bin("x")))
     part_valgrind(c, os.path.dirname(repo_bin("x")), os.path.dirname(hx_bin("x")))
     part_valgrind_faults(c, os.path.dirname(repo_bin("x")), os.path.dirname(hx_bin("x")))
